@@ -112,7 +112,9 @@ func init() {
 					}
 				}
 				cases = append(cases, c09Case("meta-x3", []string{stm[8], stm[10], stm[9]}, nil), c09Case("meta-x3", []string{stm[10], stm[12], stm[11]}, nil))
+				cases = append(cases, c09Case("three-statements", []string{stm[5], stm[4], stm[0]}, nil), c09Case("three-statements", []string{stm[6], stm[1], stm[7]}, nil))
 			} else {
+				cases = append(cases, c09Case("three-statements", []string{stm[5], stm[4], stm[0]}, nil), c09Case("three-statements", []string{stm[6], stm[1], stm[7]}, nil))
 				cases = append(cases, c09Case("three-statements", []string{stm[4], stm[5], stm[0]}, nil), c09Case("three-statements", []string{stm[0], stm[1], stm[2]}, nil),
 					c09Case("meta-x3", []string{stm[8], stm[10], stm[9]}, nil))
 			}
